@@ -510,6 +510,22 @@ func (vc *VC) envFor(fr *Frame, st *State) *Env {
 
 // loopHash binds #i, #len, #coll, #it, #ord, #n for a loop, evaluated in state st (at the head)
 func (vc *VC) loopHash(fr *Frame, li *loopInfo, st *State, env *Env) {
+	// enclosing loops: their body-relative values, also under ordinal-suffixed names (#i1, #coll1, ...)
+	for _, outer := range fr.curLoops {
+		if outer != li && outer.ordinal != li.ordinal {
+			vc.loopHashBody(fr, outer, st, env)
+		}
+	}
+	for _, k := range []string{"i", "idx", "len", "coll", "it", "ord", "n"} {
+		delete(env.hash, k)
+	}
+	defer func() {
+		for _, k := range []string{"i", "len", "coll", "it", "ord", "n"} {
+			if v, ok := env.hash[k]; ok {
+				env.hash[fmt.Sprintf("%s%d", k, li.ordinal)] = v
+			}
+		}
+	}()
 	if li.rangeIdx != nil {
 		c := fr.cells[li.rangeIdx]
 		if c != nil {
@@ -1035,11 +1051,12 @@ func (vc *VC) execInstr(fr *Frame, st *State, reach string, instr ssa.Instructio
 		fn := x.Fn.(*ssa.Function)
 		ref := vc.allocRef(st, "closure")
 		vc.useCloFn()
-		vc.assume(fmt.Sprintf("(= (clo_fn %s) %d)", ref, vc.S.funcID(vc.P.fnKeys[fn])))
+		// (guarded: closures created on different branches may receive the same reference)
+		vc.assumeG(reach, fmt.Sprintf("(= (clo_fn %s) %d)", ref, vc.S.funcID(vc.P.fnKeys[fn])))
 		for i, bnd := range x.Bindings {
 			bv := vc.operand(fr, bnd)
 			vc.useCloEnv(i)
-			vc.assume(fmt.Sprintf("(= (clo_env_%d %s) %s)", i, ref, vc.valTerm(bv)))
+			vc.assumeG(reach, fmt.Sprintf("(= (clo_env_%d %s) %s)", i, ref, vc.valTerm(bv)))
 		}
 		fr.regs[x] = Val{T: x.Type(), S: ref, Fn: fn, Clo: x, CloFrame: fr}
 		vc.checkCaptured(fr, st, reach, x, fn)
